@@ -287,7 +287,25 @@ def boot_groups(tag):
                              (BF, 'init_LweBootstrappingKeyFFT'), (BF, 'destroy_LweBootstrappingKeyFFT')],
                     defines={'FFT': 1, 'H_BKFFT': None}, unwind=10, bounded=True, cbmc=['--memory-leak-check'],
                     instance={'n': 2, 'N': 2, 'k': 2, 't': 2, 'basebit': 1}))
+    for (T, B) in [(8, 2), (2, 1)]:
+        gs.append(Group('%s.LweBootstrappingKeyFFT.init_destroy.unbounded.t=%d.basebit=%d' % (tag, T, B), 'c04_bootstrap.c', 'h_bkfft_unbounded',
+                        extract=[('lwebootstrappingkey.cpp', 'LweBootstrappingKeyFFT::LweBootstrappingKeyFFT'), ('lwebootstrappingkey.cpp', 'LweBootstrappingKeyFFT::~LweBootstrappingKeyFFT'),
+                                 (BF, 'init_LweBootstrappingKeyFFT'), (BF, 'destroy_LweBootstrappingKeyFFT')], loops=True,
+                        defines={'FFT': 1, 'H_BKFFT_U': None, 'VERIF_T': T, 'VERIF_BASEBIT': B}, gen={'bkf.inc': bkf_inc(T, B)}, cbmc=['--memory-leak-check'], timeout=1500,
+                        instance={'t': T, 'basebit': B, 'n': 'symbolic', 'k*N': 'symbolic'}))
+        gs[-1].arb_unwind = max(T, 1 << B, 4) + 3
     return gs
+
+
+def bkf_inc(T, BB):
+    base = 1 << BB
+    assert T * base <= 64
+    rows = ' '.join('M(%d, %d)' % (j, d) for j in range(T) for d in range(base))
+    full = lambda q: '((uint64_t)%dull << %d)' % ((1 << base) - 1, q * base)
+    # the shift amount is guarded inside the macro: a loop invariant is also evaluated on the havocked loop variable, before the range clause constrains it
+    part = lambda q: '((uint64_t)(((uint64_t)1 << (((p) >= 0 && (p) <= %d) ? (p) : 0)) - 1) << %d)' % (base, q * base)
+    mask = ' | '.join('((%d < (j)) ? %s : ((%d == (j)) ? %s : (uint64_t)0))' % (q, full(q), q, part(q)) for q in range(T))
+    return '#define BKF_BLOCKS(M) %s\n#define BKF_ROWS(M) %s\n#define BKF_MASK(j, p) (%s)\n' % (' '.join('M(%d)' % q for q in range(T)), rows, mask)
 
 
 def c04_groups(tier, tag='C04'):
@@ -1030,7 +1048,7 @@ PROPS = {
             'reads of uninitialised memory: CBMC has no definedness tracking; not decided',
             'thread-exit destructors of the thread_local FFT processors, the assembly kernels, the text layer of serialization, garbage collector (std::vector): not reachable by the C front end (the binary readers / writers are under contract here)',
             'key-switch table: constructor loops unbounded in n (see C08); constructor + destructor + use on one concrete table bounded',
-            'FFT-domain objects: TLweSampleFFT / TGswSampleFFT life cycle and LweBootstrappingKeyFFT ownership (bounded shape) are under contract; the LagrangeHalfCPolynomial objects themselves (FFT processors) are allocation monitors',
+            'FFT-domain objects: TLweSampleFFT / TGswSampleFFT life cycle and LweBootstrappingKeyFFT construction / ownership (unbounded in n and k*N for a watched index, plus a bounded whole-object check) are under contract; the LagrangeHalfCPolynomial objects themselves (FFT processors) are allocation monitors',
         ],
         'trusted': [],
     },
